@@ -2,7 +2,7 @@ from common import COMMON_TB
 
 PROP = {
     "suites": ["c06", "smcli"],
-    "lean_modules": ["Lc.Props.C06", "Lc.Lemmas.Prefix"],
+    "lean_modules": ["Lc.Props.C06", "Lc.Lemmas.Prefix", "Lc.Lemmas.StageClosed"],
     "leanchecker": True,
     "trusted_base": COMMON_TB + [
         "Lc/Spec/Stage.lean: my rendering of the property text as set algebra over the generator's description of the build root (expectedNames) and of the order predicates",
@@ -10,8 +10,8 @@ PROP = {
         "Go's archive/tar (writer in stagemaker, reader in the harness)",
     ],
     "assumptions": [
-        "member names are clean absolute paths without newline; no package records a path through a symlinked directory",
-        "omit lines name no directory that still has members (the property would then ask both for removal and for parent closure)",
+        "member names contain no newline; no package records a path through a symlinked directory; the names the steps bring in are clean absolute paths (StepClean, the one hypothesis of parents_precede): proved for the names of add-files lines (C17 parseLine_name_clean, fix e57e4a0), assumed for the names recorded in the package database and for those the harness obtains from Go's filepath.Glob / the symlink walk on a build root other than /",
+        "omit lines name no directory that still has members (the set-level specification would then ask both for removal and for parent closure; the order theorem parents_precede needs no such assumption: the closing AddMissingStageDirs brings the directory back)",
         "no selected package records an absent path that the built-in lists synthesise",
         "lstat errors other than ENOENT do not occur on the build root",
     ],
@@ -19,8 +19,8 @@ PROP = {
 }
 
 META = {
-    "text": "Lean theorems over the model of the member-set pipeline: pipeline_invariant (names stay pairwise different, only regular files carry an inode identity), sorted_strict / members_unique / finalize_same_names (Finalize yields a strictly byte-sorted list with the same names), prefix_lt and parent_before_child (a path sorts strictly before everything it is a proper prefix of, all byte strings), parents_precede_partial and root_precedes (every member is preceded by all its parent directories; parent-closedness is a hypothesis), addMissing_parent_closed_partial (AddMissingStageDirs closes the set under parents; hypothesis: names are clean) with addChain_fuel, hardlink_earlier_same_inode (invariant of the fixHardlinks scan), omit_removes / omit_wildcard_removes / exclude_removes, members_dot_relative; the model is tied to the real stagemaker binary by differential runs on generated build roots, and the archive read back with archive/tar is judged against an independent set-level specification (Spec.Stage.expectedNames) and the order predicates.",
+    "text": "Lean theorems over the model of the member-set pipeline: pipeline_invariant (names stay pairwise different, only regular files carry an inode identity), sorted_strict / members_unique / finalize_same_names (Finalize yields a strictly byte-sorted list with the same names), prefix_lt and parent_before_child (a path sorts strictly before everything it is a proper prefix of, all byte strings), parents_precede (FULL, the sentence of the property: for every environment and every step list whose own names are clean absolute paths and which ends, as getStageFileList does, with AddMissingStageDirs; Finalize — if the run succeeds, every member of fl.Files is preceded by each of its ancestor directories, whatever was deleted before; no hypothesis on the map) with archive_parents_precede (the same for the header sequence MakeTar writes: every name is ./..., the ancestor's member stands earlier) and stageFileList_names_clean, resting on pathDir_of_clean (on a clean absolute name path.Dir is the cut at the last slash and is clean again), pipeline_names_clean (every step keeps all member names clean absolute paths when its own names are: invariant NamesClean through runStep by cases, runSteps by induction; helper lemmas in Lemmas/StageClosed, audited too), addMissing_parent_closed (FULL: from clean names AddMissingStageDirs yields a superset with clean names that is closed under parents) and addMissing_adds_only_ancestors (it adds nothing but ancestors of members and, when a member lies directly below it, the root); the older parents_precede_partial (parent-closedness as hypothesis, any map) / root_precedes / addMissing_parent_closed_partial (hypothesis: path.Dir agrees with the cut on the names present) are kept, with addChain_fuel, hardlink_earlier_same_inode (invariant of the fixHardlinks scan), omit_removes / omit_wildcard_removes / exclude_removes, members_dot_relative; the model is tied to the real stagemaker binary by differential runs on generated build roots, and the archive read back with archive/tar is judged against an independent set-level specification (Spec.Stage.expectedNames) and the order predicates.",
     "design_ref": "§4 C06",
-    "note": "Trusted: Lean kernel; Lc/Spec/Stage.lean (expected member set, order predicates); the harness's expansion of list lines into steps (globbing, symlink walk) which is validated only through the final comparison; archive/tar. Line parsing is C17's subject and is not modelled here.",
+    "note": "Trusted: Lean kernel; Lc/Spec/Stage.lean (expected member set, order predicates); the harness's expansion of list lines into steps (globbing, symlink walk) which is validated only through the final comparison; archive/tar. Line parsing is C17's subject and is not modelled here; what C06 uses of it is C17's parseLine_name_clean (stored names are clean absolute paths).",
     "technique": "Lean 4 proof (induction over lists / byte strings) + differential correspondence model vs real binary on generated build roots",
 }
